@@ -35,6 +35,14 @@ def nodeRun (ic oc best cell live resp : String) (evs : List String) : String :=
     let log := (NodeStep.run s0 es).2
     if log.isEmpty then "-" else " ".intercalate (log.map (fun (h, a) => toString h ++ ":" ++ a.name))
 
+/-- `<set>:<weOffered>:<cltv>:<pre>` -/
+def parseMonHtlc (w : String) : Option Timing.MonHtlc :=
+  match w.splitOn ":" with
+  | [s, o, c, p] =>
+    (([.holderCurrent, .counterpartyCurrent, .counterpartyPrev] : List ScanSet).find? (fun x => x.name == s)).map
+      (fun s => { set := s, weOffered := o == "1", cltv := nat! c, preimage := p == "1" })
+  | _ => none
+
 def c08 : Drv where
   σ := Unit
   init := ()
@@ -50,6 +58,11 @@ def c08 : Drv where
     | ["e2e_failback", ic] => ((), toString (nat! ic - LATENCY_GRACE_PERIOD_BLOCKS))
     | "node" :: ic :: oc :: best :: cell :: live :: resp :: evs => ((), nodeRun ic oc best cell live resp evs)
     | ["bbuexit", x] => ((), match parseExit x with | some x => toString x.isOk ++ " " ++ toString x.returnsTimedOut | none => "bad-op")
+    | "icpt" :: out :: hs => ((), match Timing.interceptHold (nat! out) (hs.map (fun h => nat! h)) with | some h => toString h | none => "none")
+    | "monscan" :: c :: a :: h :: xs =>
+      ((), match xs.mapM parseMonHtlc with
+           | some l => toString (Timing.monShouldBroadcast (c == "1") (a == "1") (nat! h) l)
+           | none => "bad-op")
     | ["threshold", h] => ((), toString (confirmationThreshold (nat! h) none))
     | _ => ((), "bad-op")
 
